@@ -1,4 +1,5 @@
 import JT.Proof.Codec
+import JT.Proof.Codec3
 /-!
 # C07 — message body round trip
 
@@ -51,5 +52,37 @@ example : WF8003 ⟨0xffff, 3, [2, 4, 65535]⟩ := ⟨by decide, rfl, by decide,
 example : WF9212 ⟨3, [0x61, 0x62, 0x63], 2, 1, 2, [0, 100, 4294967295, 1]⟩ :=
   ⟨rfl, by decide, by decide, by decide, rfl, by decide, by decide⟩
 example : Fits [[1, 2], [3, 4], [5]] [(0, 2, "SerialNumber"), (2, 4, "ID"), (4, 5, "Result")] := by simp [Fits]
+
+/-! ### seven more two-way types at the value level (`JT/Model/Codec3.lean`): strings with length bytes, lists of
+fixed records, BCD times kept as their six raw bytes -/
+open JT.Codec3 in
+/-- **`Parse (Encode v) = v`** for every well-formed value (lengths equal to their strings, counts equal to their
+lists, numbers within their widths, BCD times without the nibble 0xA) of 0x8100, 0x9101, 0x9201, 0x9206, 0x1205, 0x9102,
+0x9207 -/
+theorem more_parse_encode :
+    (∀ v, WFP0x8100 v → parseP0x8100 (encodeP0x8100 v) = .ok v) ∧
+    (∀ v, WFP0x9101 v → parseP0x9101 (encodeP0x9101 v) = .ok v) ∧
+    (∀ v, WFP0x9201 v → parseP0x9201 (encodeP0x9201 v) = .ok v) ∧
+    (∀ v, WFP0x9206 v → parseP0x9206 (encodeP0x9206 v) = .ok v) ∧
+    (∀ v, WFT0x1205 v → parseT0x1205 (encodeT0x1205 v) = .ok v) ∧
+    (∀ v, WFP0x9102 v → parseP0x9102 (encodeP0x9102 v) = .ok v) ∧
+    (∀ v, WFP0x9207 v → parseP0x9207 (encodeP0x9207 v) = .ok v) :=
+  ⟨parse_encodeP0x8100, parse_encodeP0x9101, parse_encodeP0x9201, parse_encodeP0x9206, parse_encodeT0x1205,
+   parse_encodeP0x9102, parse_encodeP0x9207⟩
+
+open JT.Codec3 in
+/-- **`Encode (Parse b) = b`** for every accepted body of those types whose BCD time fields hold no nibble 0xA.
+(`BCD2Time` renders 0xA as ':' and `Time2BCD` strips every ':', so for such bytes — which are not BCD timestamps and
+hence outside the property's domain — the re-encoding differs: `encode_parseP0x9201_unconditional_false`.) -/
+theorem more_reencode_identical :
+    (∀ b v, parseP0x8100 b = .ok v → encodeP0x8100 v = b) ∧
+    (∀ b v, parseP0x9101 b = .ok v → encodeP0x9101 v = b) ∧
+    (∀ b v, parseP0x9201 b = .ok v → TimesP0x9201 v → encodeP0x9201 v = b) ∧
+    (∀ b v, parseP0x9206 b = .ok v → TimesP0x9206 v → encodeP0x9206 v = b) ∧
+    (∀ b v, parseT0x1205 b = .ok v → TimesT0x1205 v → encodeT0x1205 v = b) ∧
+    (∀ b v, parseP0x9102 b = .ok v → encodeP0x9102 v = b) ∧
+    (∀ b v, parseP0x9207 b = .ok v → encodeP0x9207 v = b) :=
+  ⟨encode_parseP0x8100, encode_parseP0x9101, encode_parseP0x9201, encode_parseP0x9206, encode_parseT0x1205,
+   encode_parseP0x9102, encode_parseP0x9207⟩
 
 end JT.C07
